@@ -57,6 +57,8 @@ def run(ctx, rep):
     rep.guarded("R04-TAGS", lambda: c04.r_tags(ctx.shape, rep))
     rep.rule("R02-FOLD", "every value-dependent failure exit of a foldable builtin is excluded by a guard of is_error_safe (discharges the constant folder's result().unwrap())", floor=60)
     rep.guarded("R02-FOLD", lambda: c02.r_fold(ctx.shape, rep, btab.BuiltinTables(ctx.shape)))
+    rep.rule("R10-CURRYDEF", "builtin currying emits closed definitions: discharges the optimiser's final `try_from(..).unwrap()` for hoisted partial applications (shared with C02)", floor=2)
+    rep.guarded("R10-CURRYDEF", lambda: c02.r_currydef(ctx.shape, rep, "R10-CURRYDEF"))
     rep.rule("R10-BIGINTSITE", "no reader of a Data integer handles the 64-bit form only and aborts on the rest (shared with C04)", floor=2)
     rep.guarded("R10-BIGINTSITE", lambda: c04.r_bigintsites(ctx.shape, rep, "R10-BIGINTSITE"))
     secs = {}
